@@ -623,24 +623,30 @@ func gapBoard(r *RNG, size int, c *Ctx) *tak.Position {
 			}
 		}
 	}
-	if r.Chance(1, 6) {
-		// pinned: a line of the opponent across the board, covered in one place by an own flat next to the gap
-		line := r.Intn(size)
-		for i := 0; i < size; i++ {
-			xx, yy := i, line
-			if horizontal {
-				xx, yy = line, i // perpendicular to the mover's walk
-			}
-			if seen[[2]int{xx, yy}] || (xx == gx && yy == gy) {
-				continue
-			}
-			if abs(xx-gx)+abs(yy-gy) == 1 {
-				board[yy][xx] = tak.Square{tak.MakePiece(mover, tak.Flat), tak.MakePiece(other, tak.Flat)}
-			} else {
-				board[yy][xx] = tak.Square{tak.MakePiece(other, tak.Flat)}
-			}
+	if r.Chance(1, 5) {
+		// pinned: a line of the opponent parallel to the walk, right beside the gap, covered there by an own
+		// flat: sliding that flat into the gap completes the opponent's road as well (the mover still wins)
+		line := gy + 1 - 2*r.Intn(2)
+		if !horizontal {
+			line = gx + 1 - 2*r.Intn(2)
 		}
-		c.Count("gap.pinnedline")
+		if line >= 0 && line < size {
+			for i := 0; i < size; i++ {
+				xx, yy := i, line
+				if !horizontal {
+					xx, yy = line, i
+				}
+				if seen[[2]int{xx, yy}] || (xx == gx && yy == gy) {
+					continue
+				}
+				if abs(xx-gx)+abs(yy-gy) == 1 {
+					board[yy][xx] = tak.Square{tak.MakePiece(mover, tak.Flat), tak.MakePiece(other, tak.Flat)}
+				} else {
+					board[yy][xx] = tak.Square{tak.MakePiece(other, tak.Flat)}
+				}
+			}
+			c.Count("gap.pinnedline")
+		}
 	}
 	ply := 2 + r.Intn(80)
 	if r.Chance(1, 25) {
@@ -758,7 +764,6 @@ func junctionBoard(r *RNG, size int, c *Ctx) *tak.Position {
 	if bs+bc == 0 {
 		bs = 1
 	}
-	c.Count("src.junction")
 	return fromBoard(bigCfg(r, size), board, ply, ws, wc, bs, bc)
 }
 
@@ -770,23 +775,32 @@ func genC19(c *Ctx) {
 			size = 3 + c.R.Intn(3)
 		}
 		var p *tak.Position
-		x := c.R.Intn(100)
-		switch {
-		case x < 45:
-			p = gapBoard(c.R, size, c)
-			c.Count("src.gap")
-		case x < 60:
-			p = junctionBoard(c.R, size, c)
-		case x < 72:
-			p = roadBoard(c.R, size)
-			c.Count("src.roadboard")
-		case x < 80:
-			var tag string
-			p, tag = extremalBoard(c.R, size)
-			c.Count("src." + tag)
-		default:
-			p = randomPosition(c.R)
-			c.Count("src.random")
+		for try := 0; ; try++ {
+			src := ""
+			x := c.R.Intn(100)
+			switch {
+			case x < 45:
+				p = gapBoard(c.R, size, c)
+				src = "src.gap"
+			case x < 60:
+				p = junctionBoard(c.R, size, c)
+				src = "src.junction"
+			case x < 72:
+				p = roadBoard(c.R, size)
+				src = "src.roadboard"
+			case x < 80:
+				p, src = extremalBoard(c.R, size)
+				src = "src." + src
+			default:
+				p = randomPosition(c.R)
+				src = "src.random"
+			}
+			// finished positions are outside the claim: keep only a few of them
+			if over, _ := p.GameOver(); over && try < 4 && !c.R.Chance(1, 8) {
+				continue
+			}
+			c.Count(src)
+			break
 		}
 		classifyPos(c, p)
 		tok := encPos(p)
